@@ -321,7 +321,7 @@ class _Instrument(ast.NodeTransformer):
     def visit_Constant(self, node):
         if type(node.value) is int and node.value in self.marker_set:
             self.used.add(node.value)
-            return ast.copy_location(ast.Name(id="__m%d" % node.value, ctx=ast.Load()), node)
+            return ast.copy_location(ast.Name(id="vkm_%d" % node.value, ctx=ast.Load()), node)
         return node
 
     def _tick(self, node):
@@ -374,7 +374,7 @@ def run_program(text, *, fuel=FUEL_DEFAULT, extra_globals=None, name="__main__")
     rec = Recorder()
     g = {"__builtins__": make_builtins(rec, fuel), "__name__": name}
     for m in used:
-        g["__m%d" % m] = sym.SymInt(marker_tab[m])
+        g["vkm_%d" % m] = sym.SymInt(marker_tab[m])
     if extra_globals:
         g.update(extra_globals)
     try:
